@@ -547,6 +547,12 @@ pub fn run(p: &[String]) -> Vec<String> {
                 ws.get_cell_mut((1, 1)).set_value_string(a1.clone());
                 ws.get_cell_mut((2, 1)).set_value_string(b1.clone());
             }
+            if p.len() > 5 && b(&p[5]) {
+                // the workbook as read from a file: its own table holds the strings of its cells
+                let mut buf: Vec<u8> = Vec::new();
+                umya_spreadsheet::writer::xlsx::write_writer(&book, &mut buf).unwrap();
+                book = umya_spreadsheet::reader::xlsx::read_reader(std::io::Cursor::new(buf), true).unwrap();
+            }
             match hist.as_str() {
                 "save" => save("save", &book),
                 "save_save" => { save("first save", &book); save("second save", &book); }
@@ -561,6 +567,31 @@ pub fn run(p: &[String]) -> Vec<String> {
                 _ => { save("first save", &book); book.get_sheet_by_name_mut("Sheet1").unwrap().get_cell_mut((1, 1)).set_value_string(a1.clone()); save("save after re-setting the same text", &book); }
             }
             out
+        }
+        // ---- C16
+        "saver_schedule" => {
+            // "a,b;c,d" "0,1,0,.." [preloaded "p,q"] : savers sharing one table, stepped in the given order (verif_api hook over the real
+            // Cell::write_to / SharedStringTable::write_to); per saver "texts -> strings its cells show in its own dump ok|MISMATCH"
+            let texts: Vec<Vec<String>> = unhex(&p[1]).split(';').map(|s| s.split(',').map(|t| t.to_string()).collect()).collect();
+            let schedule: Vec<usize> = unhex(&p[2]).split(',').filter(|s| !s.is_empty()).map(|s| s.parse().unwrap()).collect();
+            let pre: Vec<String> = if p.len() > 3 { unhex(&p[3]).split(',').filter(|s| !s.is_empty()).map(|t| t.to_string()).collect() } else { vec![] };
+            let between = |xml: &str, open: &str, close: &str| -> Vec<String> {
+                let mut out = vec![]; let mut rest = xml;
+                while let Some(i) = rest.find(open) {
+                    let after = &rest[i + open.len()..];
+                    let gt = after.find('>').unwrap();
+                    if after[..gt].ends_with('/') { out.push(String::new()); rest = &after[gt + 1..]; continue; }
+                    let end = after.find(close).unwrap();
+                    out.push(after[gt + 1..end].to_string()); rest = &after[end..];
+                }
+                out
+            };
+            umya_spreadsheet::verif_api::saver_schedule(&pre, &texts, &schedule).iter().zip(texts.iter()).map(|((cells, dump), own)| {
+                let idx: Vec<usize> = between(cells, "<v", "</v>").iter().map(|s| s.parse().unwrap_or(usize::MAX)).collect();
+                let strings = between(dump, "<t", "</t>");
+                let shown: Vec<String> = idx.iter().map(|i| strings.get(*i).cloned().unwrap_or("<index outside the dump>".into())).collect();
+                hex(&format!("{} -> {} {}", own.join(","), shown.join(","), if &shown == own { "ok" } else { "MISMATCH" }))
+            }).collect()
         }
         // ---- C04
         "attr_generations" => {
